@@ -137,6 +137,8 @@ type Cluster struct {
 	// DropBecomeLeaderResp: that many BecomeLeader calls are executed by the node but their
 	// response is lost on the way back (the coordinator sees an error)
 	DropBecomeLeaderResp int
+	// DropNewTermRespFrom: the next NewTerm answer of that node is lost on the way back
+	DropNewTermRespFrom string
 	// RealDisk: see RealDiskNext
 	RealDisk bool
 }
@@ -371,6 +373,12 @@ func (r *CoordRpc) NewTerm(ctx context.Context, node model.Server, req *proto.Ne
 	resp, err := call(r.c, ctx, node.Internal, "NewTerm", func(n *Node) (*proto.NewTermResponse, error) {
 		return n.Srv.NewTerm(context.Background(), req.CloneVT())
 	})
+	if err == nil && r.c.DropNewTermRespFrom == node.Internal {
+		// the node has fenced itself, the coordinator never learns it
+		r.c.DropNewTermRespFrom = ""
+		r.c.log(Event{Kind: "lost:NewTerm", Node: node.Internal, Term: req.Term})
+		return nil, ErrUnavailable
+	}
 	e := Event{Kind: "resp:NewTerm", Node: node.Internal, Term: req.Term, Err: errStr(err)}
 	if resp != nil {
 		e.Head = resp.HeadEntryId
